@@ -300,7 +300,9 @@ func (fc *funcContext) translateExpr(expr ast.Expr) *expression {
 				// types and for all unsigned values.
 				return fc.fixNumber(fc.formatExpr("-%e", e.X), basic)
 			default:
-				return fc.formatExpr("-%e", e.X)
+				// Parenthesized, so that the operator cannot fuse with a preceding
+				// minus sign into a JavaScript decrement (- -x must not become --x).
+				return fc.formatParenExpr("-%e", e.X)
 			}
 		case token.XOR:
 			if is64Bit(basic) {
